@@ -500,17 +500,17 @@ func (w *walker) cases(list []ast.Stmt, h held) held {
 	return out
 }
 
-
 // ---------------------------------------------------------------------------------------------------------------
 // commit shape (C06): a MemFS namespace call walks the path without the parent's lock (searchNode) and then commits
 // under `parent.mu.Lock()`. The two-phase linearizability theorem (Avfs/Conc/Lin.lean) needs the commit to work on
 // what it finds under the lock, not on what the walk saw. Facts emitted for every function that calls searchNode:
-//   walk        field = the variable receiving the child found by the walk ("_" if discarded), note = the parent variable
-//   commitlock  the first exclusive lock of a parent variable after the walk
-//   relookup    after the lock: field = "<var>" for `var = parent.children[…]`, "test" for any other read of parent.children[…]
-//   stale       after the lock: a use of a walk child variable that has not been looked up again   (field = variable)
-//   mutate      after the lock: createDir/createFile/createSymlink/addChild/removeChild/delete on a parent; write = a
-//               read of parent.children[…] precedes it in the locked region   (field = callee)
+//
+//	walk        field = the variable receiving the child found by the walk ("_" if discarded), note = the parent variable
+//	commitlock  the first exclusive lock of a parent variable after the walk
+//	relookup    after the lock: field = "<var>" for `var = parent.children[…]`, "test" for any other read of parent.children[…]
+//	stale       after the lock: a use of a walk child variable that has not been looked up again   (field = variable)
+//	mutate      after the lock: createDir/createFile/createSymlink/addChild/removeChild/delete on a parent; write = a
+//	            read of parent.children[…] precedes it in the locked region   (field = callee)
 type commitScan struct {
 	w         *walker
 	parents   map[string]bool
@@ -751,7 +751,9 @@ func splitRoot(e string) (string, string) {
 	return e, ""
 }
 
-func lstr(s string) string { return "\"" + strings.ReplaceAll(strings.ReplaceAll(s, "\\", "\\\\"), "\"", "\\\"") + "\"" }
+func lstr(s string) string {
+	return "\"" + strings.ReplaceAll(strings.ReplaceAll(s, "\\", "\\\\"), "\"", "\\\"") + "\""
+}
 func llist(xs []string) string {
 	q := make([]string, len(xs))
 	for i, x := range xs {
@@ -770,8 +772,8 @@ func main() {
 	var facts []fact
 	type fnInfo struct {
 		pkg, name, recv string
-		params         []string
-		exported       bool
+		params          []string
+		exported        bool
 	}
 	var fns []fnInfo
 	for _, p := range pkgs {
